@@ -3,7 +3,7 @@
 # Confirms in a scratch worktree: patch applies, builds, demo fails with it and passes without, suite passes with it.
 set -u
 id=$1; shift; prop=${id%%-*}; checks="${@:-$prop}"
-src=/tmp/seed_$id; case "$id" in *-2) src=/tmp/seed2_$prop;; *-3) src=/tmp/seed3_$prop;; *-4) src=/tmp/seed4_$prop;; *-5) src=/tmp/seed5_$prop;; *-6) src=/tmp/seed6_$prop;; *-7) src=/tmp/seed7_$prop;; *-8) src=/tmp/seed8_$prop;; *-9) src=/tmp/seed9_$prop;; esac
+src=/tmp/seed_$id; case "$id" in *-2) src=/tmp/seed2_$prop;; *-3) src=/tmp/seed3_$prop;; *-4) src=/tmp/seed4_$prop;; *-5) src=/tmp/seed5_$prop;; *-6) src=/tmp/seed6_$prop;; *-7) src=/tmp/seed7_$prop;; *-8) src=/tmp/seed8_$prop;; *-9) src=/tmp/seed9_$prop;; *-10) src=/tmp/seed10_$prop;; esac
 dst=/verif/seeded/$id
 mkdir -p $dst
 if [ -f $src/patch.diff ]; then cp $src/patch.diff $src/zz_seed_demo_test.go $dst/ 2>/dev/null; cp $src/meta.json $dst/meta_agent.json 2>/dev/null; fi
